@@ -776,6 +776,7 @@ const c08Proj = "{| p_gas := false; p_transfers := true; p_logs := true; p_retda
 
 func init() {
 	runners["C08"] = func(c *ctx) {
+		c.stateProj = "sp_metadata" // the part of the state this property's theorems speak about
 		u := newUniverse()
 		c.rep.Rule = "every executed call is checked on the implementation with the production protobuf encoder: (1) a successful ESDTNFTCreate stores exactly (nonce, name, creator = caller, royalties, hash, attributes, URIs) of its arguments, the stored royalties are <= 10000 (arguments above 2^32 are truncated to uint32 first: 2^32+1 stores 1, 2^32+10001 is rejected) and the log topic carries the stored bytes; (2) every hop of ESDTNFTTransfer / MultiESDTNFTTransfer (same shard, emitted cross-shard message, delivery, refund): decoded metadata on arrival / in the message deep-equals the sender's; an arrival on a held copy with another hash must not succeed; (3) ESDTNFTAddURI appends exactly its URI arguments, ESDTNFTUpdateAttributes replaces the attributes, both only for a caller holding the role on its own entry, and every other cell of every account of the shard is unchanged; (4) frame for all 23 functions: no other call changes the metadata of an existing entry, no entry with metadata appears except by creation or a credited transfer; (5) history level: every stored copy of a (token, nonce) carries a metadata value produced by its creation or by an AddURI / UpdateAttributes on some copy. Families: metadata pools (empty and large name / hash / attributes, URI lists with empty entries, royalties 0, 1, 9999, 10000, 10001, 2^32-1, 2^32+1, 2^32+10000, 2^32+10001, 2^64-1, 9-byte numbers, zero padded), routes of 1..4 hops over users and contracts on 1-3 shards (single / multi, partial quantities, the same NFT twice in one multi-transfer, late delivery) with an end-to-end comparison against the creation metadata, two creators with equal nonce and different / equal hash (all ways in, refund), the two update functions on own holdings, foreign holdings and copies, frozen and paused; plus random walks. Every executed call is re-evaluated in the Coq model (state, logs, transfers). distinct = distinct (shard state, call)."
 		c.setExecStream(c08Proj)
